@@ -51,3 +51,24 @@ package cluster
 //@   assert @s.mgr.Notify: [authz] s.credentialStore == nil || cmdGranted[c]["join"]
 //@   assert @s.mgr.Join: [authz] s.credentialStore == nil || (jr.Voter && cmdGranted[c]["join"]) || (!jr.Voter && (cmdGranted[c]["join-read-only"] || cmdGranted[c]["join-read-replica"]))
 //@   assert @s.mgr.Stepdown: [authz] s.credentialStore == nil || cmdGranted[c]["leader-ops"]
+//
+// ---- C20: request/response pairing on pooled connections -------------------------------------------
+// retry: a connection on which a request/response exchange failed (for whatever reason, including a
+// deadline) may still receive the peer's late response; it is marked unusable before it is closed
+// (= handed back to the pool), so that no later request reads another request's response. The bytes
+// returned are those of the last exchange, which succeeded.
+//@ func (*Client) retry
+//@   requires [recv] c != nil
+//@   ghost var lastConn int = 0
+//@   ghost var exFailed bool = false
+//@   ghost var marked bool = false
+//@   ghost var lastBytes slice = nilslice
+//@   ghost update @writeCommandReadResponse: lastConn = arg0
+//@   ghost update @writeCommandReadResponse: exFailed = (result1 != nil)
+//@   ghost update @writeCommandReadResponse: marked = false
+//@   ghost update @writeCommandReadResponse: lastBytes = result0
+//@   assert @writeCommandReadResponse: [same-command] arg1 == command && arg2 == timeout
+//@   ghost update @handleConnError: marked = marked || (arg0 == lastConn)
+//@   assert @conn.Close: [failed-exchange-conn-not-reused] (exFailed && lastConn == conn) ==> marked
+//@   loop 1 invariant [none] true
+//@   ensures [last-exchange-bytes] result2 == nil ==> (!exFailed && result0 == lastBytes)
